@@ -121,13 +121,35 @@ def merge_weights(ex, st, eff, blocks):
     return w, used
 
 
-def pm_oracle(chk, n):
-    """the real parallel_merging on n shared-memory HyperLogLog sketches vs merging them in-process"""
+def pm_oracle(chk, n, kind="hll"):
+    """the real parallel_merging on n shared-memory sketches vs merging them in-process"""
     import multiprocessing as mp
     import numpy as np
 
     hl = chk.module("hyperloglog")
     helpers = chk.module("helpers")
+    if kind != "hll":
+        cm, hhm = chk.module("countmin"), chk.module("heavyhitters")
+        mk = (lambda sm: cm.CountMinLinear(16, 2, shared_memory=sm)) if kind == "cms" else (lambda sm: hhm.HeavyHitters(16, 2, 8, shared_memory=sm))
+        sk, want = [], mk(False)
+        for i in range(n):
+            s_ = mk(True)
+            keys = [b"s%d-%d" % (i, j) for j in range(5)]
+            s_.update(keys)
+            want.update(keys)
+            sk.append(s_)
+        lq = mp.get_context("spawn").Queue()
+        try:
+            res = helpers.parallel_merging(list(sk), lq)
+            got = int(res.n_added())
+        except Exception as e:
+            return {"key": "parallel_merging of %d %s sketches" % (n, kind), "observed": "raised %s: %s" % (type(e).__name__, e), "expected": "the merged sketch", "how": "real helpers.parallel_merging (spawned merge workers)"}
+        finally:
+            res = None
+            del sk
+        if got != int(want.n_added()):
+            return {"key": "parallel_merging of %d shared-memory %s sketches with 5 keys each" % (n, kind), "observed": "n_added() = %d" % got, "expected": "n_added() = %d (every input merged once)" % int(want.n_added()), "how": "real helpers.parallel_merging (spawned merge workers)"}
+        return None
     sk, want = [], hl.HyperLogLog(7, 5)
     for i in range(n):
         s_ = hl.HyperLogLog(7, 5, shared_memory=True)
@@ -164,9 +186,9 @@ def check_parallel_merging(chk, ex, found, kinds=("hll", "cms", "hh")):
             name = "parallel_merging[%s,n=%d]" % (kind, n)
             cache_ = {}
 
-            def found(n=n, cache_=cache_):
+            def found(n=n, cache_=cache_, kind=kind):
                 if "r" not in cache_:
-                    cache_["r"] = pm_oracle(chk, n)
+                    cache_["r"] = pm_oracle(chk, n, kind)
                 return cache_["r"]
 
             row(chk, name + ":returns-a-sketch", len(outs) == 1 and outs[0].kind == "return" and isinstance(outs[0].value, Ref), [o.kind for o in outs], found)
@@ -362,12 +384,12 @@ def replay_generator(chk=None):
     return {"key": "F3", "call": "parallel_add(<generator>, cb, n_workers=2, hll_args={'p': 7})", "observed": line, "expected": "items may be given as a list or as a generator", "how": "real run in a subprocess"}
 
 
-def merge_tree_part(chk):
-    """the library's own merge tree on HyperLogLog sketches (used by C02: 'the shape of the merge
-    tree' includes the tree that parallel_merging builds)"""
+def merge_tree_part(chk, kinds=("hll",)):
+    """the library's own merge tree (used by C01..C04: 'merges in any tree' / 'the shape of the merge
+    tree' include the tree that parallel_merging builds)"""
     ex = _helpers.make_exec(chk, {("process-start",): start_hook})
     try:
-        check_parallel_merging(chk, ex, None, kinds=("hll",))
+        check_parallel_merging(chk, ex, None, kinds=tuple(kinds))
     except X.Unsupported as e:
         chk.undecided.append(("helpers.parallel_merging", "unsupported construct in glue: %s" % e))
     chk.assumptions.add("synchronous-process abstraction (see skv/props/_helpers.py); parallel_merging is checked for concrete worker counts (bounded in n, unbounded in contents)")
